@@ -8,7 +8,7 @@ sys.path.insert(0, os.path.join(common.VERIF, 'props'))
 REG = {}
 for pid, mod in [
     ("C01", "p_bundles"), ("C02", "p_bundles"), ("C03", "p_bundles"), ("C08", "p_bundles"),
-    ("C31", "p_bundles"), ("C09", "p_bundles"), ("C10", "p_bundles"), ("C11", "p_bundles"), ("C12", "p_bundles"), ("C36", "p_unit"), ("C40", "p_unit"), ("C37", "p_unit"), ("C21", "p_unit"), ("C22", "p_unit"), ("C14", "p_unit"), ("C38", "p_c38"), ("C25", "p_unit"), ("C27", "p_c27"), ("C28", "p_c28"), ("C41", "p_c41"), ("C29", "p_c29"), ("C23", "p_c23"), ("C39", "p_c39"), ("C26", "p_c26"), ("C18", "p_c18"), ("C19", "p_c19"), ("C16", "p_c16"), ("C13", "p_c13"), ("C15", "p_c15"), ("C34", "p_c34"), ("C35", "p_c35"), ("C20", "p_c20"), ("C04", "p_c04"), ("C05", "p_recalc"), ("C06", "p_recalc"), ("C07", "p_recalc"),
+    ("C31", "p_bundles"), ("C09", "p_bundles"), ("C10", "p_bundles"), ("C11", "p_bundles"), ("C12", "p_bundles"), ("C36", "p_unit"), ("C40", "p_unit"), ("C37", "p_unit"), ("C21", "p_unit"), ("C22", "p_unit"), ("C14", "p_unit"), ("C38", "p_c38"), ("C25", "p_unit"), ("C27", "p_c27"), ("C28", "p_c28"), ("C41", "p_c41"), ("C29", "p_c29"), ("C23", "p_c23"), ("C39", "p_c39"), ("C26", "p_c26"), ("C18", "p_c18"), ("C19", "p_c19"), ("C16", "p_c16"), ("C13", "p_c13"), ("C15", "p_c15"), ("C34", "p_c34"), ("C35", "p_c35"), ("C20", "p_c20"), ("C24", "p_unit"), ("C32", "p_unit"), ("C33", "p_unit"), ("C17", "p_unit"), ("C04", "p_c04"), ("C05", "p_recalc"), ("C06", "p_recalc"), ("C07", "p_recalc"),
 ]:
   REG[pid] = mod
 try:
